@@ -97,3 +97,45 @@ fn c17_strict_lists_at_least_what_permissive_lists() {
     }
     println!("CASES c17_lists {cases}");
 }
+
+/// straight-line programs: the path's minimum gas is the sum of the opcodes' `min_gas_cost`; with any smaller limit
+/// the run must report GasLimitExceeded — in both modes, and also when the crossing instruction is the last one
+#[test]
+fn c17_gas_exhaustion_reported_at_every_limit_below_the_path_cost() {
+    use storage_layout_extractor::disassembly::InstructionStream;
+    std::panic::set_hook(Box::new(|_| {}));
+    let programs: Vec<Vec<u8>> = vec![
+        vec![0x5f, 0x5f],
+        vec![0x5f, 0x50, 0x5f, 0x50, 0x00],
+        vec![0x5f, 0xff, 0x00],
+        vec![0x36, 0x50, 0x5b, 0x5b, 0x36, 0x50],
+        vec![0x60, 0x01, 0x60, 0x02, 0x01, 0x50],
+        vec![0x60, 0x01, 0x60, 0x00, 0x55],
+    ];
+    let mut cases = 0;
+    for code in &programs {
+        let Ok(is) = InstructionStream::try_from(code.as_slice()) else { continue };
+        let t = is.new_thread(0).unwrap();
+        // cost of the instructions executed before the path ends (halting opcodes end it)
+        let mut total = 0usize;
+        let mut ip = 0usize;
+        while ip < code.len() {
+            let op = t.instruction(ip as u32).unwrap();
+            total += op.min_gas_cost();
+            if [0x00u8, 0xf3, 0xfd, 0xfe, 0xff].contains(&code[ip]) { break; }
+            ip += if (0x60..=0x7f).contains(&code[ip]) { 1 + (code[ip] - 0x5f) as usize } else { 1 };
+        }
+        for limit in (0..total).chain([total, total + 1]) {
+            for permissive in [false, true] {
+                let Some(errs) = vm_errors(code, permissive, limit) else { continue };
+                let exceeded = errs.iter().any(|e| e.contains("GasLimitExceeded"));
+                if exceeded != (limit < total) {
+                    witness("C17", "ctl.gas_exhaustion_is_an_error_in_both_modes", format!("code={code:02x?} path cost {total} gas_limit={limit} permissive={permissive}"), format!("errors {errs:?}"), if limit < total { "GasLimitExceeded".into() } else { "no gas error".into() });
+                    witness("C03", "limits.gas_limit_respected", format!("code={code:02x?} path cost {total} gas_limit={limit} permissive={permissive}"), format!("errors {errs:?}"), if limit < total { "GasLimitExceeded".into() } else { "no gas error".into() });
+                }
+                cases += 1;
+            }
+        }
+    }
+    println!("CASES c17_gas_limits {cases}");
+}
